@@ -296,7 +296,15 @@ func (g *FuncGen) frameStore(st *State, a *Addr, what string, pos token.Pos) {
 		// inside the modifies set, but the contract restricts writes to its footprint objects
 		parts := []string{goal}
 		for _, f := range g.ownFootprint {
-			parts = append(parts, fmt.Sprintf("(= %s %s)", a.ref, f))
+			applies := false
+			for _, n := range names {
+				if footprintApplies(f.Type, n) {
+					applies = true
+				}
+			}
+			if applies {
+				parts = append(parts, g.inFootprint(f, a.ref, g.entryHeap))
+			}
 		}
 		goal = "(or " + strings.Join(parts, " ") + ")"
 	}
